@@ -88,6 +88,7 @@ struct Slot {
     int64_t nvmReadFaultAt = -1; uint32_t nvmReadShort = 0;
     // LSS persistent cell
     bool lssStored = false; uint32_t lssBaud = 0; uint8_t lssNode = 0; int lssStoreFail = 0; int lssLoadFail = 0;
+    bool lssLoadViaApi = false;     // the application's COLssLoad takes the stored node id over with CONmtSetNodeId (legal while the node is in INIT) instead of writing through the pointer
     // lock tracking
     int lockDepth = 0; bool lockUnbalanced = false; uint64_t lockStamp = 0;   // 'now' at the last outermost lock acquisition
     // scripted callback behaviour
